@@ -469,6 +469,20 @@ static bool has_flonum2(Type *ty) {
   return has_flonum(ty, 8, 16, 0);
 }
 
+// Computes how many general-purpose and SSE registers a struct or union
+// of at most 16 bytes occupies when it is passed or returned in
+// registers. Returns false if it has to go to memory.
+static bool struct_reg_counts(Type *ty, int *gp, int *fp) {
+  if (ty->size == 0 || ty->size > 16)
+    return false;
+
+  bool fp1 = has_flonum1(ty);
+  bool fp2 = ty->size > 8 && has_flonum2(ty);
+  *fp = fp1 + fp2;
+  *gp = !fp1 + (ty->size > 8 && !fp2);
+  return true;
+}
+
 static void push_struct(Type *ty) {
   int sz = align_to(ty->size, 8);
   println("  sub $%d, %%rsp", sz);
@@ -542,23 +556,18 @@ static int push_args(Node *node) {
 
     switch (ty->kind) {
     case TY_STRUCT:
-    case TY_UNION:
-      if (ty->size > 16) {
+    case TY_UNION: {
+      int ngp, nfp;
+      if (struct_reg_counts(ty, &ngp, &nfp) &&
+          fp + nfp <= FP_MAX && gp + ngp <= GP_MAX) {
+        fp += nfp;
+        gp += ngp;
+      } else {
         arg->pass_by_stack = true;
         stack += align_to(ty->size, 8) / 8;
-      } else {
-        bool fp1 = has_flonum1(ty);
-        bool fp2 = has_flonum2(ty);
-
-        if (fp + fp1 + fp2 < FP_MAX && gp + !fp1 + !fp2 < GP_MAX) {
-          fp = fp + fp1 + fp2;
-          gp = gp + !fp1 + !fp2;
-        } else {
-          arg->pass_by_stack = true;
-          stack += align_to(ty->size, 8) / 8;
-        }
       }
       break;
+    }
     case TY_FLOAT:
     case TY_DOUBLE:
       if (fp++ >= FP_MAX) {
@@ -601,6 +610,9 @@ static void copy_ret_buffer(Obj *var) {
   Type *ty = var->ty;
   int gp = 0, fp = 0;
 
+  if (ty->size == 0)
+    return;
+
   if (has_flonum1(ty)) {
     assert(ty->size == 4 || 8 <= ty->size);
     if (ty->size == 4)
@@ -638,6 +650,9 @@ static void copy_struct_reg(void) {
   Type *ty = current_fn->ty->return_ty;
   int gp = 0, fp = 0;
 
+  if (ty->size == 0)
+    return;
+
   println("  mov %%rax, %%rdi");
 
   if (has_flonum(ty, 0, 8, 0)) {
@@ -659,7 +674,7 @@ static void copy_struct_reg(void) {
   if (ty->size > 8) {
     if (has_flonum(ty, 8, 16, 0)) {
       assert(ty->size == 12 || ty->size == 16);
-      if (ty->size == 4)
+      if (ty->size == 12)
         println("  movss 8(%%rdi), %%xmm%d", fp);
       else
         println("  movsd 8(%%rdi), %%xmm%d", fp);
@@ -932,24 +947,19 @@ static void gen_expr(Node *node) {
       switch (ty->kind) {
       case TY_STRUCT:
       case TY_UNION:
-        if (ty->size > 16)
+        if (arg->pass_by_stack)
           continue;
 
-        bool fp1 = has_flonum1(ty);
-        bool fp2 = has_flonum2(ty);
+        if (has_flonum1(ty))
+          popf(fp++);
+        else
+          pop(argreg64[gp++]);
 
-        if (fp + fp1 + fp2 < FP_MAX && gp + !fp1 + !fp2 < GP_MAX) {
-          if (fp1)
+        if (ty->size > 8) {
+          if (has_flonum2(ty))
             popf(fp++);
           else
             pop(argreg64[gp++]);
-
-          if (ty->size > 8) {
-            if (fp2)
-              popf(fp++);
-            else
-              pop(argreg64[gp++]);
-          }
         }
         break;
       case TY_FLOAT:
@@ -1417,17 +1427,16 @@ static void assign_lvar_offsets(Obj *prog) {
 
       switch (ty->kind) {
       case TY_STRUCT:
-      case TY_UNION:
-        if (ty->size <= 16) {
-          bool fp1 = has_flonum(ty, 0, 8, 0);
-          bool fp2 = has_flonum(ty, 8, 16, 8);
-          if (fp + fp1 + fp2 < FP_MAX && gp + !fp1 + !fp2 < GP_MAX) {
-            fp = fp + fp1 + fp2;
-            gp = gp + !fp1 + !fp2;
-            continue;
-          }
+      case TY_UNION: {
+        int ngp, nfp;
+        if (struct_reg_counts(ty, &ngp, &nfp) &&
+            fp + nfp <= FP_MAX && gp + ngp <= GP_MAX) {
+          fp += nfp;
+          gp += ngp;
+          continue;
         }
         break;
+      }
       case TY_FLOAT:
       case TY_DOUBLE:
         if (fp++ < FP_MAX)
